@@ -35,7 +35,7 @@ X0 = binop('=', own('x'), ('lit', 'int', '0'))
 X1 = binop('=', own('x'), ('lit', 'int', '1'))
 
 
-def _pred(ch, visible):
+def _pred(ch, visible, binders=()):
     opts = [None, None, X0, X1, X0, X1, mast.FALSE, mast.TRUE, binop('and', X0, X1), binop('or', X0, X1), ('un', 'not', X0), binop('and', X1, ('un', 'not', X0))]
     for a in visible:
         eq = binop('=', own('x'), ('field', ('var', a), 'x'))
@@ -47,8 +47,11 @@ def _pred(ch, visible):
     # the same two conditions written with a quantifier over a set built on the field; the bound variable may carry
     # the name of an alias used somewhere in the property (visible here, bound by one alternative only, the event's own): just a name
     v = ch.pick(['i', 'P', 'S', 'Y0', 'Y1', 'Y2'])
-    opts.append(('q', 'forall', v, ('set', (own('x'), ('lit', 'int', '1'))), binop('=', ('var', v), ('lit', 'int', '1'))))
-    opts.append(('q', 'exists', v, ('set', (own('x'),)), binop('=', ('var', v), ('lit', 'int', '0'))))
+    if binders and ch.int(0, 3) > 0:
+        v = ch.pick(sorted(binders))  # an alias that another event of this property binds (perhaps in one alternative only)
+    for _ in range(3 if binders else 1):
+        opts.append(('q', 'forall', v, ('set', (own('x'), ('lit', 'int', '1'))), binop('=', ('var', v), ('lit', 'int', '1'))))
+        opts.append(('q', 'exists', v, ('set', (own('x'),)), binop('=', ('var', v), ('lit', 'int', '0'))))
     if visible and v not in visible:
         a = visible[-1]
         opts.append(('q', 'forall', v, ('set', (own('x'), ('field', ('var', a), 'x'))), binop('=', ('var', v), ('field', ('var', a), 'x'))))
@@ -69,7 +72,10 @@ def gen_property(ch):
     sk = {0: 'globally', 1: 'after', 2: 'after', 3: 'until', 4: 'after_until', 5: 'after_until'}[sform]
     pk = ch.pick(['absence', 'existence', 'response', 'prevention', 'requirement'])
 
-    def event(names, width, vis, alias_mode):
+    def bound_in(ev):
+        return {e[2] for e in mast.simple_events(ev) if e[2]}
+
+    def event(names, width, vis, alias_mode, binders=()):
         """alias_mode: None | 'each' (distinct aliases) | 'shared' (the same alias on every alternative)"""
         evs = []
         for i in range(width):
@@ -78,7 +84,7 @@ def gen_property(ch):
                 alias = 'S'
             elif alias_mode == 'each' and ch.bool():
                 alias = f'Y{i}'
-            evs.append(('ev', names[i], alias, _pred(ch, vis)))
+            evs.append(('ev', names[i], alias, _pred(ch, vis, binders)))
         return evs[0] if width == 1 else ('disj', tuple(evs))
 
     A, B = ['a1', 'a2', 'a3'], ['b1', 'b2', 'b3']
@@ -102,19 +108,19 @@ def gen_property(ch):
         w = ch.int(1, 3)
         beh = event(B, w, visible, mode)
         vis2 = visible + (['S'] if mode == 'shared' else []) + ([beh[2]] if w == 1 and beh[2] else [])
-        trig = event(A, ch.int(1, 2), vis2, None)
+        trig = event(A, ch.int(1, 2), vis2, None, bound_in(beh))
     elif pk == 'response':
         mode = ch.pick([None, 'each', 'shared', 'shared'])
         w = ch.int(1, 3)
         trig = event(A, w, visible, mode)
         vis2 = visible + (['S'] if mode == 'shared' else []) + ([trig[2]] if w == 1 and trig[2] else [])
-        beh = event(B, ch.int(1, 2), vis2, None)
+        beh = event(B, ch.int(1, 2), vis2, None, bound_in(trig))
     else:  # prevention: behaviour is split, trigger is not
         w = ch.int(1, 2)
         mode = ch.pick([None, 'shared'])
         trig = event(A, w, visible, mode)
         vis2 = visible + (['S'] if mode == 'shared' else []) + ([trig[2]] if w == 1 and trig[2] else [])
-        beh = event(B, ch.int(1, 3), vis2, ch.pick([None, 'each']))
+        beh = event(B, ch.int(1, 3), vis2, ch.pick([None, 'each']), bound_in(trig))
     if A is B and trig is not None and ch.bool() and not any(n[0] == 'var' or (n[0] == 'ev' and n[2]) for n in mast.walk(trig)):
         beh = trig  # the very same event (sub-tree) in both positions
     bound = ch.pick([None, ('2', 's'), ('2', 's'), ('2000', 'ms')])
@@ -277,7 +283,7 @@ def shard(ctx, shard_no, nshards, n_props, maxlen):
 
 def run(ctx):
     if ctx.tier == 'quick':
-        core.run_sharded(ctx, __name__, 'shard', 1, (300, 3))
+        core.run_sharded(ctx, __name__, 'shard', 4, (200, 3))
     else:
         core.run_sharded(ctx, __name__, 'shard', getattr(ctx, 'shards_override', None) or 16, (150, 4))
 
